@@ -38,6 +38,24 @@ func poolDoc(r *rng, schema byte) []elem {
 		return []elem{{"cpu", &val{T: 0x04, Arr: []*val{{T: 0x03, Doc: []elem{{"user", i()}}}, {T: 0x03, Doc: []elem{{"sys", i()}}}}}}}
 	case 'M':
 		return []elem{{"cpu", &val{T: 0x04, Arr: []*val{{T: 0x03, Doc: []elem{{"user", i()}, {"sys", i()}}}}}}}
+	case 'N': // N and O: the hashed key streams coincide (.a + .b = .a.b), the metric counts differ
+		return []elem{{"a", i()}, {"b", i()}}
+	case 'O':
+		return []elem{{"a", &val{T: 0x03, Doc: []elem{{"b", i()}}}}}
+	case 'P': // P and Q: regrouped with equal metric counts; the concatenation of the key paths is .a.b.c for both
+		return []elem{{"a", i()}, {"b", &val{T: 0x03, Doc: []elem{{"c", i()}}}}}
+	case 'Q':
+		return []elem{{"a", &val{T: 0x03, Doc: []elem{{"b", i()}}}}, {"c", i()}}
+	case 'R': // R and S: the enclosing sub-document renamed, the leaf names kept
+		return []elem{{"p", &val{T: 0x03, Doc: []elem{{"u", i()}, {"v", i()}}}}}
+	case 'S':
+		return []elem{{"q", &val{T: 0x03, Doc: []elem{{"u", i()}, {"v", i()}}}}}
+	case 'T': // R with its second leaf moved out of the sub-document: the leaf names in order are the same
+		return []elem{{"p", &val{T: 0x03, Doc: []elem{{"u", i()}}}}, {"v", i()}}
+	case 'V': // V and W: only a boolean field renamed; C to V: only a boolean field added
+		return []elem{{"x", i()}, {"q", &val{T: 0x08, Bool: r.chance(1, 2)}}}
+	case 'W':
+		return []elem{{"x", i()}, {"r", &val{T: 0x08, Bool: r.chance(1, 2)}}}
 	case 'Z': // no metrics at all
 		return []elem{{"s", &val{T: 0x02, B: []byte("only")}}}
 	}
@@ -241,8 +259,8 @@ func init() {
 		// 1b. renames that keep the concatenation of the key names (separator-sensitive hashing)
 		for _, kind := range []string{"dyn", "sdyn"} {
 			for _, n := range []int{1, 2, 3} {
-				enumerate("HIJKLM", 3, func(seq string) {
-					if !thorough && len(seq) == 3 && !r.chance(1, 2) {
+				enumerate("HIJKLMNOPQRSTVWC", 3, func(seq string) {
+					if !thorough && len(seq) == 3 && !r.chance(1, 16) {
 						return
 					}
 					id++
